@@ -299,9 +299,7 @@ def r3(ctx, R):
     gi = ctx.func("SharedSpaceOperations.get_relative_interface")
     gr = q.calls(gi, name="get_relative")
     R.inst("get_relative_interface -> _graph.get_relative(parent.idstr, base.parent.idstr, base.interface._impl.idstr)")
-    vals = {k: (norm(assigned_value(gi, k)[0]) if assigned_value(gi, k) else None) for k in ("basespace", "basevalue")}
-    if not gr or [norm(a) for a in gr[0].args] != ["parent.idstr", "basespace", "basevalue"] or \
-            vals != {"basespace": "base.parent.idstr", "basevalue": "base.interface._impl.idstr"}:
+    if not gr or [q.anorm(gi, a) for a in gr[0].args] != ["parent.idstr", "base.parent.idstr", "base.interface._impl.idstr"]:
         R.bad(gi, gi.node, "relative lookup is not (sub space, defining space, referenced object)", stmt="get_relative")
     R.inst("get_relative_interface: (True, mapped object) / (False, original object)")
     rv = sorted(norm(r_.value) for r_ in q.returns(gi))
